@@ -51,6 +51,12 @@ def mk_map_op(t, dims, kind):
         stmt, ref = 'm = m*a + m;', 'm[i] = m[i]*a[i] + m[i];'
     elif kind == 'fill':
         stmt, ref = 'm.fill(s);', 'm[i] = s;'
+    elif kind == 'ones':
+        stmt, ref = 'm.ones();', 'm[i] = 1;'
+    elif kind == 'zeros':
+        stmt, ref = 'm.zeros();', 'm[i] = 0;'
+    elif kind == 'iota':
+        stmt, ref, mode = 'm.iota(s);', 'm[i] = s + (%s)i;' % ct, 'ALG'
     elif kind in ('iadd_int', 'isub_int', 'imul_int', 'idiv_int', 'set_int'):
         # a scalar of INTEGRAL type on the right (m /= 3, m *= k): separate overloads of the scalar assignment kernels
         o = {'iadd_int': '+', 'isub_int': '-', 'imul_int': '*', 'idiv_int': '/', 'set_int': ''}[kind]
@@ -229,7 +235,7 @@ def witnesses(tier, seed):
     sizes = [[1], [3], [4], [7], [8], [9], [16], [17], [33], [2, 3], [4, 4], [3, 5], [2, 3, 4]] + ([] if quick else [[5], [12], [31], [32], [5, 8], [8, 8], [2, 2, 2, 3]])
     for dims in sizes:
         for t in T3 + (['i64'] if not quick else []):
-            for kind in ('assign_expr', 'iadd', 'imul_scalar', 'isub_expr', 'self_expr', 'fill', 'iadd_int', 'isub_int', 'imul_int', 'idiv_int', 'idiv_lit'):
+            for kind in ('assign_expr', 'iadd', 'imul_scalar', 'isub_expr', 'self_expr', 'fill', 'ones', 'zeros', 'iota', 'iadd_int', 'isub_int', 'imul_int', 'idiv_int', 'idiv_lit'):
                 W.append(mk_map_op(t, dims, kind))
             for kind in ('expr', 'copy', 'sum'):
                 W.append(mk_map_read(t, dims, kind))
